@@ -321,6 +321,9 @@ Lemma send_all_cons now qe snap sends s im ol :
   let (s2, e2) := send_all now qe snap sends s1 ol in (s2, e1 ++ e2).
 Proof. reflexivity. Qed.
 
+Lemma iter_init_peers pf s : i_peers (iter_init pf s) = o_peers s.
+Proof. unfold iter_init. destruct pf; [destruct (o_queue s)|]; reflexivity. Qed.
+
 (* ------------------------------------------------------------------ history principle *)
 (* For one peer index i: an invariant I tying the peer's fields to the log so far (newest first), and a
    predicate P that every attempt to i must satisfy relative to the log before it. *)
@@ -385,20 +388,21 @@ Proof.
     rewrite <- app_assoc. simpl. exact IH.
 Qed.
 
-Lemma step_hist s act rl :
+Lemma step_hist pf s act rl :
   Inv (o_peers s) rl -> AllP rl ->
-  Inv (o_peers (fst (step c s act))) (rev (snd (step c s act)) ++ rl) /\
-  AllP (rev (snd (step c s act)) ++ rl).
+  Inv (o_peers (fst (step_o pf c s act))) (rev (snd (step_o pf c s act)) ++ rl) /\
+  AllP (rev (snd (step_o pf c s act)) ++ rl).
 Proof.
   intros Hinv Hall. destruct act as [n | now snap sends | from typ flags caddr]; simpl.
   - auto.
-  - unfold iter.
+  - unfold iter_o.
     pose proof (send_all_hist now (is_nil (o_queue s)) snap sends
                   (decide_all c now (is_nil (o_queue s)) (o_peers s))
-                  (mkI (o_peers s) (o_queue s) None) rl
+                  (iter_init pf s) rl
                   (decide_all_nodup _ _ _ _)) as H.
-    simpl in H. specialize (H (fun j m Hin => decide_all_in _ _ _ _ _ _ Hin) Hinv Hall).
-    destruct (send_all now (is_nil (o_queue s)) snap sends (mkI (o_peers s) (o_queue s) None)
+    rewrite iter_init_peers in H.
+    specialize (H (fun j m Hin => decide_all_in _ _ _ _ _ _ Hin) Hinv Hall).
+    destruct (send_all now (is_nil (o_queue s)) snap sends (iter_init pf s)
                 (decide_all c now (is_nil (o_queue s)) (o_peers s))) as [s' es].
     simpl in H |- *. exact H.
   - unfold in_handle. destruct (nth_error (o_peers s) from) as [p|] eqn:Hn; simpl; [|auto].
@@ -419,14 +423,20 @@ Proof.
         apply Hinv; exact Hp'.
 Qed.
 
+Theorem hist_ind_o : forall pf acts s rl,
+  Inv (o_peers s) rl -> AllP rl ->
+  Inv (o_peers (fst (run_o pf c s acts rl))) (snd (run_o pf c s acts rl)) /\ AllP (snd (run_o pf c s acts rl)).
+Proof.
+  intro pf. induction acts as [|act acts IH]; intros s rl Hinv Hall; simpl; [auto|].
+  pose proof (step_hist pf s act rl Hinv Hall) as H.
+  destruct (step_o pf c s act) as [s' es]. simpl in H. destruct H as [H1 H2]. apply IH; assumption.
+Qed.
+
+(* the pinned order, under the name used by Proofs/ReplicationProofs.v *)
 Theorem hist_ind : forall acts s rl,
   Inv (o_peers s) rl -> AllP rl ->
   Inv (o_peers (fst (run c s acts rl))) (snd (run c s acts rl)) /\ AllP (snd (run c s acts rl)).
-Proof.
-  induction acts as [|act acts IH]; intros s rl Hinv Hall; simpl; [auto|].
-  pose proof (step_hist s act rl Hinv Hall) as H.
-  destruct (step c s act) as [s' es]. simpl in H. destruct H as [H1 H2]. apply IH; assumption.
-Qed.
+Proof. exact (hist_ind_o false). Qed.
 
 Lemma AllP_app x y : AllP (x ++ y) -> AllP y.
 Proof.
@@ -438,12 +448,16 @@ Proof. intros H Hi. apply AllP_app in H. simpl in H. destruct H as [H _]. auto. 
 End Hist.
 
 (* the log, forwards, split at an attempt: the reversed accumulator splits the same way *)
-Lemma log_split c s acts l1 e l2 :
-  log_of c s acts = l1 ++ e :: l2 -> snd (run c s acts []) = rev l2 ++ e :: rev l1.
+Lemma log_split_o pf c s acts l1 e l2 :
+  log_of_o pf c s acts = l1 ++ e :: l2 -> snd (run_o pf c s acts []) = rev l2 ++ e :: rev l1.
 Proof.
-  unfold log_of. intro H. apply (f_equal (@rev ev)) in H. rewrite rev_involutive in H.
+  unfold log_of_o. intro H. apply (f_equal (@rev ev)) in H. rewrite rev_involutive in H.
   rewrite H. rewrite rev_app_distr. simpl. rewrite <- app_assoc. reflexivity.
 Qed.
+
+Lemma log_split c s acts l1 e l2 :
+  log_of c s acts = l1 ++ e :: l2 -> snd (run c s acts []) = rev l2 ++ e :: rev l1.
+Proof. exact (log_split_o false c s acts l1 e l2). Qed.
 
 (* most recent event about peer i *)
 Fixpoint last_ev (i : nat) (rl : list ev) : option ev :=
@@ -479,18 +493,18 @@ Definition spaced (c : tcfg) (b a : attempt) : Prop :=
 Lemma rev_in_ev (l : list ev) (Q : ev -> Prop) : (forall e, In e l -> Q e) -> forall e, In e (rev l) -> Q e.
 Proof. intros H e He. apply H. apply in_rev. exact He. Qed.
 
-Theorem retry_spacing : forall c s acts l1 a1 l2 a2 l3,
-  log_of c s acts = l1 ++ EAtt a1 :: l2 ++ EAtt a2 :: l3 ->
+Theorem retry_spacing : forall pf c s acts l1 a1 l2 a2 l3,
+  log_of_o pf c s acts = l1 ++ EAtt a1 :: l2 ++ EAtt a2 :: l3 ->
   at_peer a1 = at_peer a2 ->
   (forall e, In e l2 -> ev_peer e <> at_peer a2) ->
   spaced c a1 a2.
 Proof.
-  intros c s acts l1 a1 l2 a2 l3 Hlog Hpeer Hfree.
+  intros pf c s acts l1 a1 l2 a2 l3 Hlog Hpeer Hfree.
   set (i := at_peer a2).
   set (I := fun (p : peer) (rl : list ev) => forall b, last_ev i rl = Some (EAtt b) -> la p = Z.max 0 (at_done b)).
   set (P := fun (rl : list ev) (a : attempt) => forall b, last_ev i rl = Some (EAtt b) -> spaced c b a).
-  assert (Hmain : AllP i P (snd (run c s acts []))).
-  { apply (hist_ind c i I P).
+  assert (Hmain : AllP i P (snd (run_o pf c s acts []))).
+  { apply (hist_ind_o c i I P).
     - (* attempt *)
       intros p rl now qe m a cn HI Hd Hpa Hm Hdec Hq Hf. split.
       + intros b Hb. specialize (HI b Hb). unfold spaced. rewrite Hm, Hdec.
@@ -510,7 +524,7 @@ Proof.
     - exact Logic.I. }
   replace (l1 ++ EAtt a1 :: l2 ++ EAtt a2 :: l3) with ((l1 ++ EAtt a1 :: l2) ++ EAtt a2 :: l3) in Hlog
     by (rewrite <- app_assoc; reflexivity).
-  apply log_split in Hlog. rewrite Hlog in Hmain.
+  apply log_split_o in Hlog. rewrite Hlog in Hmain.
   apply (AllP_at i P) in Hmain; [|reflexivity].
   apply Hmain. rewrite rev_app_distr. simpl. rewrite <- app_assoc. simpl.
   rewrite last_ev_skip.
@@ -532,16 +546,16 @@ Proof.
   - right; eapply reached_le; eauto.
 Qed.
 
-Theorem retry_spacing_seconds : forall c s acts l1 a1 l2 a2 l3,
-  log_of c s acts = l1 ++ EAtt a1 :: l2 ++ EAtt a2 :: l3 ->
+Theorem retry_spacing_seconds : forall pf c s acts l1 a1 l2 a2 l3,
+  log_of_o pf c s acts = l1 ++ EAtt a1 :: l2 ++ EAtt a2 :: l3 ->
   at_peer a1 = at_peer a2 ->
   (forall e, In e l2 -> ev_peer e <> at_peer a2) ->
   (at_mode a2 = SYNC /\ at_qne a2 = true) \/
   (interval_of c (at_mode a2) <= at_dec a2 - at_done a1 /\
    (at_dec a1 <= at_done a1 -> interval_of c (at_mode a2) <= at_dec a2 - at_dec a1)).
 Proof.
-  intros c s acts l1 a1 l2 a2 l3 Hlog Hpeer Hfree.
-  pose proof (retry_spacing c s acts l1 a1 l2 a2 l3 Hlog Hpeer Hfree) as H.
+  intros pf c s acts l1 a1 l2 a2 l3 Hlog Hpeer Hfree.
+  pose proof (retry_spacing pf c s acts l1 a1 l2 a2 l3 Hlog Hpeer Hfree) as H.
   apply spaced_weak in H. destruct H as [H|H]; [left; exact H | right; split; [exact H | lia]].
 Qed.
 
@@ -550,13 +564,13 @@ Definition delivered_ev (i : nat) (e : ev) : bool :=
   match e with EAtt a => Nat.eqb (at_peer a) i && is_ok (at_err a) | EReset _ => false end.
 Definition delivered (i : nat) (rl : list ev) : bool := existsb (delivered_ev i) rl.
 
-Lemma flag_hist c s acts i :
+Lemma flag_hist pf c s acts i :
   let fr0 := match nth_error (o_peers s) i with Some p => fr p | None => false end in
   AllP i (fun rl a => (delivered i rl = false -> at_flag a = fr0) /\ (delivered i rl = true -> at_flag a = false))
-       (snd (run c s acts [])).
+       (snd (run_o pf c s acts [])).
 Proof.
   intro fr0.
-  apply (hist_ind c i (fun p rl => (delivered i rl = false -> fr p = fr0) /\ (delivered i rl = true -> fr p = false))).
+  apply (hist_ind_o c i (fun p rl => (delivered i rl = false -> fr p = fr0) /\ (delivered i rl = true -> fr p = false))).
   - intros p rl now qe m a cn [HI1 HI2] Hd Hpa Hm Hdec Hq Hf. split.
     + rewrite Hf. split; assumption.
     + destruct (post_send_effects m (fr p) (at_err a) (at_done a) cn p) as (_ & _ & Hfr & _).
@@ -585,29 +599,29 @@ Proof.
   specialize (H b Hin H1). destruct (at_err b); [congruence | discriminate].
 Qed.
 
-Theorem flag_until_delivered : forall c s acts i p0 l1 a l2,
+Theorem flag_until_delivered : forall pf c s acts i p0 l1 a l2,
   nth_error (o_peers s) i = Some p0 -> fr p0 = true ->
-  log_of c s acts = l1 ++ EAtt a :: l2 -> at_peer a = i ->
+  log_of_o pf c s acts = l1 ++ EAtt a :: l2 -> at_peer a = i ->
   (forall b, In (EAtt b) l1 -> at_peer b = i -> at_err b <> 0%nat) ->
   at_flag a = true.
 Proof.
-  intros c s acts i p0 l1 a l2 Hp0 Hfr Hlog Hpa Hnone.
-  pose proof (flag_hist c s acts i) as H. cbv zeta in H. rewrite Hp0 in H.
-  apply log_split in Hlog. rewrite Hlog in H.
+  intros pf c s acts i p0 l1 a l2 Hp0 Hfr Hlog Hpa Hnone.
+  pose proof (flag_hist pf c s acts i) as H. cbv zeta in H. rewrite Hp0 in H.
+  apply log_split_o in Hlog. rewrite Hlog in H.
   apply AllP_at in H; [|exact Hpa]. destruct H as [H _]. rewrite Hfr in H. apply H.
   apply delivered_false_rev. exact Hnone.
 Qed.
 
-Theorem flag_cleared_by_delivery : forall c s acts l1 b l2 a l3,
-  log_of c s acts = l1 ++ EAtt b :: l2 ++ EAtt a :: l3 ->
+Theorem flag_cleared_by_delivery : forall pf c s acts l1 b l2 a l3,
+  log_of_o pf c s acts = l1 ++ EAtt b :: l2 ++ EAtt a :: l3 ->
   at_peer b = at_peer a -> at_err b = 0%nat ->
   at_flag a = false.
 Proof.
-  intros c s acts l1 b l2 a l3 Hlog Hpeer Herr.
-  pose proof (flag_hist c s acts (at_peer a)) as H. cbv zeta in H.
+  intros pf c s acts l1 b l2 a l3 Hlog Hpeer Herr.
+  pose proof (flag_hist pf c s acts (at_peer a)) as H. cbv zeta in H.
   replace (l1 ++ EAtt b :: l2 ++ EAtt a :: l3) with ((l1 ++ EAtt b :: l2) ++ EAtt a :: l3) in Hlog
     by (rewrite <- app_assoc; reflexivity).
-  apply log_split in Hlog. rewrite Hlog in H.
+  apply log_split_o in Hlog. rewrite Hlog in H.
   apply AllP_at in H; [|reflexivity]. destruct H as [_ H]. apply H.
   unfold delivered. apply existsb_exists. exists (EAtt b). split.
   - apply in_rev. rewrite rev_involutive. apply in_or_app. right. left. reflexivity.
@@ -615,19 +629,19 @@ Proof.
 Qed.
 
 (* ------------------------------------------------------------------ RESET makes the next message a RESYNC *)
-Theorem reset_triggers_resync : forall c s acts i l1 l2 a l3,
-  log_of c s acts = l1 ++ EReset i :: l2 ++ EAtt a :: l3 ->
+Theorem reset_triggers_resync : forall pf c s acts i l1 l2 a l3,
+  log_of_o pf c s acts = l1 ++ EReset i :: l2 ++ EAtt a :: l3 ->
   at_peer a = i ->
   (forall e, In e l2 -> ev_peer e <> i) ->
   p_resync c < at_dec a -> a_resync c < at_dec a ->
   at_mode a = RESYNC.
 Proof.
-  intros c s acts i l1 l2 a l3 Hlog Hpa Hfree Hp Ha.
+  intros pf c s acts i l1 l2 a l3 Hlog Hpa Hfree Hp Ha.
   set (I := fun (p : peer) (rl : list ev) => last_ev i rl = Some (EReset i) -> lc p = 0 /\ la p = 0).
   set (P := fun (rl : list ev) (a : attempt) =>
               last_ev i rl = Some (EReset i) -> p_resync c < at_dec a -> at_mode a = RESYNC).
-  assert (Hmain : AllP i P (snd (run c s acts []))).
-  { apply (hist_ind c i I P).
+  assert (Hmain : AllP i P (snd (run_o pf c s acts []))).
+  { apply (hist_ind_o c i I P).
     - intros p rl now qe m a0 cn HI Hd Hpa0 Hm Hdec Hq Hf. split.
       + intros Hl Hpr. destruct (HI Hl) as [Hlc _]. rewrite Hm. rewrite Hdec in Hpr.
         eapply mt_resync_only; [|exact Hd]. rewrite Hlc. lia.
@@ -639,7 +653,7 @@ Proof.
     - exact Logic.I. }
   replace (l1 ++ EReset i :: l2 ++ EAtt a :: l3) with ((l1 ++ EReset i :: l2) ++ EAtt a :: l3) in Hlog
     by (rewrite <- app_assoc; reflexivity).
-  apply log_split in Hlog. rewrite Hlog in Hmain.
+  apply log_split_o in Hlog. rewrite Hlog in Hmain.
   apply (AllP_at i P) in Hmain; [|exact Hpa].
   apply Hmain; [|exact Hp].
   rewrite rev_app_distr. simpl. rewrite <- app_assoc. simpl.
@@ -667,26 +681,27 @@ Proof.
     + rewrite E2 in Ha'. simpl in Ha'. exists a'. split; [right; exact Ha' | exact Hrest].
 Qed.
 
-Theorem reset_resync_next_iteration : forall c s from typ flags caddr now snap sends p,
+Theorem reset_resync_next_iteration : forall pf c s from typ flags caddr now snap sends p,
   nth_error (o_peers s) from = Some p -> Z.land flags 1 = 1 ->
   p_resync c < now -> a_resync c < now ->
-  exists a, In (EAtt a) (snd (step c (fst (step c s (AIn from typ flags caddr))) (AIter now snap sends))) /\
+  exists a, In (EAtt a) (snd (step_o pf c (fst (step_o pf c s (AIn from typ flags caddr))) (AIter now snap sends))) /\
             at_peer a = from /\ at_mode a = RESYNC.
 Proof.
-  intros c s from typ flags caddr now snap sends p Hn Hfl Hp Ha.
+  intros pf c s from typ flags caddr now snap sends p Hn Hfl Hp Ha.
   simpl. unfold in_handle. rewrite Hn, Hfl. simpl.
   set (p1 := if caddr =? addr p then p else set_addr caddr p).
   set (ps := set_nth from (clear_last p1) (o_peers s)).
   assert (Hn' : nth_error ps from = Some (clear_last p1)) by (apply (nth_error_set_nth_eq _ _ _ _ Hn)).
-  unfold iter. simpl.
+  unfold iter_o. simpl o_queue. simpl o_peers.
   assert (Hd : decide c now (is_nil (o_queue s)) (clear_last p1) = Some RESYNC).
   { apply mt_resync_due; simpl; lia. }
   pose proof (decide_all_complete c now (is_nil (o_queue s)) ps from _ _ Hn' Hd) as Hin.
   destruct (send_all_emits now (is_nil (o_queue s)) snap sends
-              (decide_all c now (is_nil (o_queue s)) ps) (mkI ps (o_queue s) None) from RESYNC) as [a Ha'].
-  - intros j' m' Hin'. apply decide_all_in in Hin'. destruct Hin' as [p' [Hp' _]]. simpl. eauto.
+              (decide_all c now (is_nil (o_queue s)) ps) (iter_init pf (mkO ps (o_queue s))) from RESYNC) as [a Ha'].
+  - intros j' m' Hin'. apply decide_all_in in Hin'. destruct Hin' as [p' [Hp' _]].
+    rewrite iter_init_peers. simpl. eauto.
   - exact Hin.
-  - destruct (send_all now (is_nil (o_queue s)) snap sends (mkI ps (o_queue s) None)
+  - destruct (send_all now (is_nil (o_queue s)) snap sends (iter_init pf (mkO ps (o_queue s)))
                 (decide_all c now (is_nil (o_queue s)) ps)) as [s' es]. simpl in Ha' |- *. eauto.
 Qed.
 
@@ -789,15 +804,15 @@ Proof.
   - apply IH.
 Qed.
 
-(* One iteration of the loop body, as a whole: every peer's record afterwards is the bookkeeping of the
-   message chosen for it (or unchanged when none was chosen); the queue loses its head iff some peer was
-   sent a SYNC. *)
-Theorem iter_effects : forall c now snap sends s,
+(* One iteration of the loop body, as a whole, in either step order: every peer's record afterwards is the
+   bookkeeping of the message chosen for it (or unchanged when none was chosen); in the pinned order the queue
+   loses its head iff some peer was sent a SYNC, in the repaired order whenever it was non-empty. *)
+Theorem iter_effects : forall pf c now snap sends s,
   let qe := is_nil (o_queue s) in
   let cn := hd empty_note (o_queue s) in
-  let s' := fst (iter c now snap sends s) in
+  let s' := fst (iter_o pf c now snap sends s) in
   length (o_peers s') = length (o_peers s) /\
-  o_queue s' = (if existsb (wants_sync c now qe) (o_peers s) then tl (o_queue s) else o_queue s) /\
+  o_queue s' = (if pf || existsb (wants_sync c now qe) (o_peers s) then tl (o_queue s) else o_queue s) /\
   forall j p, nth_error (o_peers s) j = Some p ->
     nth_error (o_peers s') j =
     Some (match decide c now qe p with
@@ -805,18 +820,26 @@ Theorem iter_effects : forall c now snap sends s,
           | Some m => send_peer m (fr p) (err_of (fst (nth j sends (0, now)))) (snd (nth j sends (0, now))) cn p
           end).
 Proof.
-  intros c now snap sends s qe cn s'. unfold s', iter. fold qe.
+  intros pf c now snap sends s qe cn s'. unfold s', iter_o. fold qe.
   pose proof (send_all_peers now qe snap sends (o_queue s) (decide_all c now qe (o_peers s))
-                (mkI (o_peers s) (o_queue s) None) (decide_all_nodup _ _ _ _)) as H.
-  cbv zeta in H. simpl in H.
+                (iter_init pf s) (decide_all_nodup _ _ _ _)) as H.
+  cbv zeta in H. rewrite iter_init_peers in H.
   assert (Hol : forall j m, In (j, m) (decide_all c now qe (o_peers s)) -> exists p, nth_error (o_peers s) j = Some p).
   { intros j m Hin. apply decide_all_in in Hin. destruct Hin as [p [Hp _]]. eauto. }
-  specialize (H Hol (or_introl (conj eq_refl eq_refl))).
-  destruct (send_all now qe snap sends (mkI (o_peers s) (o_queue s) None) (decide_all c now qe (o_peers s)))
-    as [s2 es]. simpl in H |- *.
-  destruct H as (_ & Hq & _ & Hlen & Hun & Hin).
+  assert (Hc : cache_ok (o_queue s) (iter_init pf s)).
+  { unfold cache_ok, iter_init. destruct pf; [|left; auto].
+    destruct (o_queue s) as [|n q']; simpl; [left; auto | right; auto]. }
+  specialize (H Hol Hc).
+  destruct (send_all now qe snap sends (iter_init pf s) (decide_all c now qe (o_peers s))) as [s2 es].
+  simpl in H |- *.
+  destruct H as (_ & Hq & Hq2 & Hlen & Hun & Hin).
   split; [exact Hlen|]. split.
-  - rewrite (Hq eq_refl). unfold decide_all. rewrite has_sync_decide_from. reflexivity.
+  - unfold decide_all in Hq. rewrite has_sync_decide_from in Hq.
+    unfold iter_init in Hq, Hq2. destruct pf; simpl.
+    + destruct (o_queue s) as [|n q'] eqn:Eq; simpl in *.
+      * rewrite (Hq eq_refl). destruct (existsb (wants_sync c now qe) (o_peers s)); reflexivity.
+      * destruct (Hq2 n eq_refl) as [Hq' _]. exact Hq'.
+    + simpl in Hq. exact (Hq eq_refl).
   - intros j p Hn. destruct (decide c now qe p) as [m|] eqn:Hd.
     + apply Hin; [|exact Hn]. eapply decide_all_complete; eauto.
     + apply Hun; [exact Hn|]. intros m Hin'. apply decide_all_in in Hin'.
